@@ -198,3 +198,101 @@ Proof.
   - intros H Hd. rewrite Hd in H. simpl in H. apply Pb_update_sound. exact H.
   - apply Pb_idle_sound.
 Qed.
+
+(* ================================================================ histories of vote periods *)
+
+(** what is observed after each step of a history *)
+Record hobs := mkHObs {
+  ho_panic : bool; ho_rates : list rate_entry; ho_events : list (nat * Z);
+  ho_votes : list avote;             (* Votes store after the EndBlocker, sorted by voter *)
+  ho_prevotes : list (nat * Z) }.    (* Prevotes store after the EndBlocker *)
+
+Definition ho_outcome (o : hobs) : outcome := if ho_panic o then Panic else Done (ho_rates o) (ho_events o).
+
+(** The property of one step.  [cast] = the votes submitted since the last vote-period end (tracked by
+    the specification, NOT read from the implementation's store), [pvs] = the prevotes that should exist.
+    - the outcome satisfies the single-step property P w.r.t. exactly the votes of THIS period;
+    - at a period end no vote survives and a prevote survives iff height < submit + VotePeriod;
+      otherwise both stores just accumulate. *)
+Definition P_hstep (p : params) (e : henv) (rs : list rate_entry) (cast : list avote) (pvs : list (nat * Z))
+           (x : hstep) (cur : hobs) : Prop :=
+  let vs := put_votes cast (hp_votes x) in
+  let pv := put_prevotes pvs (hp_prevotes x) in
+  P p (env_state e vs rs) (hp_h x) (ho_outcome cur) /\
+  (ho_panic cur = false ->
+   if is_period_last (hp_h x) (p_vote_period p)
+   then ho_votes cur = [] /\ ho_prevotes cur = filter (keep_prevote p (hp_h x)) pv
+   else ho_votes cur = vs /\ ho_prevotes cur = pv).
+
+Fixpoint P_hist (p : params) (e : henv) (rs : list rate_entry) (cast : list avote) (pvs : list (nat * Z))
+         (l : list (hstep * hobs)) : Prop :=
+  match l with
+  | [] => True
+  | (x, cur) :: r =>
+      P_hstep p e rs cast pvs x cur /\
+      (ho_panic cur = false ->
+       let vs := put_votes cast (hp_votes x) in
+       let pv := put_prevotes pvs (hp_prevotes x) in
+       if is_period_last (hp_h x) (p_vote_period p)
+       then P_hist p e (ho_rates cur) [] (filter (keep_prevote p (hp_h x)) pv) r
+       else P_hist p e (ho_rates cur) vs pv r)
+  end.
+
+Fixpoint leqb {A} (eqb : A -> A -> bool) (a b : list A) : bool :=
+  match a, b with
+  | [], [] => true
+  | x :: a', y :: b' => eqb x y && leqb eqb a' b'
+  | _, _ => false
+  end.
+Lemma leqb_eq {A} (eqb : A -> A -> bool) :
+  (forall x y, eqb x y = true -> x = y) -> forall a b, leqb eqb a b = true -> a = b.
+Proof.
+  intro H. induction a as [|x a IH]; intros [|y b] E; simpl in E; try discriminate; [reflexivity|].
+  apply andb_true_iff in E as [E1 E2]. rewrite (H _ _ E1), (IH _ E2). reflexivity.
+Qed.
+Definition avote_eqb (a b : avote) : bool := Nat.eqb (a_voter a) (a_voter b) && leqb ev_eqb (a_tuples a) (a_tuples b).
+Lemma avote_eqb_eq a b : avote_eqb a b = true -> a = b.
+Proof.
+  destruct a, b. unfold avote_eqb. simpl. intro H. apply andb_true_iff in H as [H1 H2].
+  apply Nat.eqb_eq in H1. apply (leqb_eq ev_eqb ev_eqb_eq) in H2. subst. reflexivity.
+Qed.
+
+Definition Pb_hstep (p : params) (e : henv) (rs : list rate_entry) (cast : list avote) (pvs : list (nat * Z))
+           (x : hstep) (cur : hobs) : bool :=
+  let vs := put_votes cast (hp_votes x) in
+  let pv := put_prevotes pvs (hp_prevotes x) in
+  Pb p (env_state e vs rs) (hp_h x) (ho_outcome cur) &&
+  (ho_panic cur ||
+   if is_period_last (hp_h x) (p_vote_period p)
+   then leqb avote_eqb (ho_votes cur) [] && leqb ev_eqb (ho_prevotes cur) (filter (keep_prevote p (hp_h x)) pv)
+   else leqb avote_eqb (ho_votes cur) vs && leqb ev_eqb (ho_prevotes cur) pv).
+
+Fixpoint Pb_hist (p : params) (e : henv) (rs : list rate_entry) (cast : list avote) (pvs : list (nat * Z))
+         (l : list (hstep * hobs)) : bool :=
+  match l with
+  | [] => true
+  | (x, cur) :: r =>
+      Pb_hstep p e rs cast pvs x cur &&
+      (ho_panic cur ||
+       let vs := put_votes cast (hp_votes x) in
+       let pv := put_prevotes pvs (hp_prevotes x) in
+       if is_period_last (hp_h x) (p_vote_period p)
+       then Pb_hist p e (ho_rates cur) [] (filter (keep_prevote p (hp_h x)) pv) r
+       else Pb_hist p e (ho_rates cur) vs pv r)
+  end.
+
+Lemma Pb_hstep_sound p e rs cast pvs x cur : Pb_hstep p e rs cast pvs x cur = true -> P_hstep p e rs cast pvs x cur.
+Proof.
+  unfold Pb_hstep, P_hstep. cbv zeta. intro H. apply andb_true_iff in H as [H1 H2].
+  split; [apply Pb_sound; exact H1|]. intro Hp. rewrite Hp in H2. simpl in H2.
+  destruct (is_period_last (hp_h x) (p_vote_period p)); apply andb_true_iff in H2 as [A B];
+    (split; [apply (leqb_eq avote_eqb avote_eqb_eq); exact A | apply (leqb_eq ev_eqb ev_eqb_eq); exact B]).
+Qed.
+
+Lemma Pb_hist_sound p e : forall l rs cast pvs, Pb_hist p e rs cast pvs l = true -> P_hist p e rs cast pvs l.
+Proof.
+  induction l as [|[x cur] l IH]; intros rs cast pvs H; [exact I|].
+  cbn [Pb_hist P_hist] in *. apply andb_true_iff in H as [H1 H2].
+  split; [apply Pb_hstep_sound; exact H1|]. intro Hp. rewrite Hp in H2. simpl in H2. cbv zeta in *.
+  destruct (is_period_last (hp_h x) (p_vote_period p)); apply IH; exact H2.
+Qed.
